@@ -1,23 +1,30 @@
-"""C01 array programs compute what NumPy computes (spec -> code replay of ArrayProgram behaviours)."""
+"""C01 array programs compute what NumPy computes (spec -> code replay of ArrayProgram behaviours).
+
+TLC enumerates every behaviour of ArrayProgram.tla inside the bounds of each corpus
+(exhaustive, not sampled: the corpora do not depend on the seed), together with the
+denotation (shape, kind, values) of every collection.  Every behaviour is replayed
+into dask_array under the chunk grids of its sources and every new collection is
+computed and compared with the denotation; NumPy runs the same program as a second
+oracle (spec != NumPy is a machinery error, never a violation).
+"""
 from __future__ import annotations
 
 from .. import replay, tlc
 
+NO_INDEX = [a for a in replay.ALL_ACTS if a != "Index"]
 
-def corpus_plan(tier, seed):
-    """(label, kwargs for generate_programs, max_variants)"""
+
+def corpus_plan(tier):
+    """(label, kwargs for generate_programs, max chunk-grid variants per program)"""
     if tier == "quick":
         return [
-            ("exh-depth1-1d", dict(acts=replay.ALL_ACTS, maxlen=1, preset="1d", sim=False, smax=1, idxpad=0, emit_all=True), 4),
-            ("sim-depth4", dict(acts=replay.ALL_ACTS, maxlen=4, preset="mixed", sim=True, num=2500, seed=seed + 1), 1),
-            ("sim-depth6", dict(acts=replay.ALL_ACTS, maxlen=6, preset="small", sim=True, num=1200, seed=seed + 2), 1),
+            ("exh-depth1-1d", dict(acts=replay.ALL_ACTS, maxlen=1, preset="1d", sim=False, smax=1, idxpad=0, emit_all=True), 16),
+            ("exh-depth1-2d", dict(acts=NO_INDEX, maxlen=1, preset="2d", sim=False, emit_all=True), 4),
         ]
     return [
         ("exh-depth1-1d", dict(acts=replay.ALL_ACTS, maxlen=1, preset="1d", sim=False, smax=2, idxpad=1, emit_all=True), 16),
-        ("exh-depth1-2d", dict(acts=[a for a in replay.ALL_ACTS if a != "Index"], maxlen=1, preset="2d", sim=False, emit_all=True), 8),
-        ("sim-depth3", dict(acts=replay.ALL_ACTS, maxlen=3, preset="mixed", sim=True, num=40000, seed=seed + 1), 1),
-        ("sim-depth5", dict(acts=replay.ALL_ACTS, maxlen=5, preset="mixed", sim=True, num=40000, seed=seed + 2), 1),
-        ("sim-depth7", dict(acts=replay.ALL_ACTS, maxlen=7, preset="small", sim=True, num=20000, seed=seed + 3), 1),
+        ("exh-depth1-1d7", dict(acts=NO_INDEX, maxlen=1, preset="1d7", sim=False, emit_all=True), 64),
+        ("exh-depth1-2d", dict(acts=NO_INDEX, maxlen=1, preset="2d", sim=False, emit_all=True), 32),
     ]
 
 
@@ -34,7 +41,8 @@ def classify(chk, out, label):
 def run(chk):
     rd = tlc.new_rundir("C01")
     try:
-        for label, kw, maxvar in corpus_plan(chk.tier, chk.seed):
+        flip_checked = False
+        for label, kw, maxvar in corpus_plan(chk.tier):
             behs, res = replay.generate_programs(rundir=rd, timeout=3000, **kw)
             chk.add_tlc(res, f"gen:{label}")
             out = replay.run_corpus(behs, observers=(), max_variants=maxvar, seed=chk.seed)
@@ -49,12 +57,30 @@ def run(chk):
                 chk.nontrivial(("p", str(b["prog"])))
             if behs:
                 chk.sample({"prog": behs[len(behs) // 2]["prog"], "expect_last": behs[len(behs) // 2]["env"][-1]})
-        chk.cov["rule"] = ("behaviours of ArrayProgram.tla: exhaustive depth-1 over every 1-D source x every action instance "
-                           "(every chunking of the source), plus TLC simulation (random parameters) to depth 4-7 over 1-3 sources of "
-                           "the mixed shapes; distinct = distinct programs; each replayed into dask_array with the value of every "
-                           "new collection compared with the TLC-computed denotation (and NumPy as second oracle)")
-        chk.assumptions += ["operation families without a TLA+ denotation (fft, linalg decompositions, percentile, histogram, "
-                            "einsum, gufunc, random distributions) are not claimed (DESIGN §2.3)",
+            if not flip_checked:
+                n, hit = replay.binding_selftest(behs, chk.seed)
+                if n == 0 or hit == 0:
+                    raise tlc.MachineryError(f"binding self-test failed: {hit} of {n} mutant programs detected")
+                chk.part("selftest:flip-is-identity", programs=n, detected=hit, passed=True)
+                flip_checked = True
+        chk.cov["exhaustive"] = True
+        chk.cov["rule"] = ("every behaviour of ArrayProgram.tla of depth 1 (one source of every preset shape and kind x every "
+                           "instance of every action: all basic indices, elemwise/unary ops, casts, transposes, reshapes, "
+                           "expand/squeeze, flip/roll, concatenate/stack, rechunk to every grid, every reduction x axes x keepdims x "
+                           "split_every, arg-reductions, scans (both methods), diff, where, take, broadcast_to, sliding windows "
+                           "alone and reduced, dot, pad, repeat, tile, topk) x the chunk grids of the source (all of them when no "
+                           "more than the variant cap, else a seeded sample); distinct = distinct programs; each replayed into "
+                           "dask_array and the computed value, shape, dtype of the new collection compared with the TLC-computed "
+                           "denotation (NumPy as second oracle)")
+        chk.assumptions += ["depth 1 only: compositions of operations are covered by the rewrite/optimizer properties, not here; "
+                            "TLC simulation of deeper programs (tools/explore_sim.py) is an exploration aid, not part of this check",
+                            "operation families without a TLA+ denotation (fft, linalg decompositions, percentile, histogram, "
+                            "einsum, gufunc, random distributions, setitem, map_blocks) are not covered",
+                            "where NumPy itself raises, only indexing is required to raise (C12); other operations are not judged",
                             "float results compared with rtol 1e-9; integer/bool results exactly"]
     finally:
         tlc.cleanup(rd)
+
+
+def replay_cmd(chk, path):
+    return replay.replay_file(chk, path)
